@@ -24,3 +24,13 @@ def unitsOK (s : St) : Bool :=
   && s.lps.all (fun e => e.2.isEmpty || s.pools.contains (poolKey e.1))
 
 end Sif.Spec.C01
+
+namespace Sif.Spec.C01
+
+/-- C02, payout clause: a removal that burned `burned` of the pool's `P` units pays at most the
+    pro-rata fraction of each depth, up to one base unit plus 10^-15 relative -/
+def payoutOK (P nD eD burned n' e' : Nat) : Bool :=
+  decide ((n' : Rat) ≤ mkRat (nD * burned) P * (1 + mkRat 1 (10^15)) + 1) &&
+  decide ((e' : Rat) ≤ mkRat (eD * burned) P * (1 + mkRat 1 (10^15)) + 1)
+
+end Sif.Spec.C01
